@@ -19,7 +19,11 @@ RULE = (
     "childless, only the mux has several parents, at most one mux, every link of a type "
     "add_comp accepts; the save() document lists exactly the components. Non-trivial: a "
     "history with an accepted rename/delete, at least one rejected call and >= 2 accepted "
-    "edits; distinct by history hash."
+    "edits; distinct by history hash. Stream 'small_scope' (bounded exhaustive): EVERY "
+    "sequence of up to 4 (quick) / 5 (thorough) calls over a fixed alphabet of 10 calls "
+    "(second source, delete the first source, two different muxes, an element with a rail, a "
+    "load addressed through the rail, replacements by a mux / by a load / by a colliding "
+    "name and rail, deletion keeping children), the invariant checked after every call."
 )
 ASSUMPTIONS = [
     "structural facts are read from the system's graph and registries (private attributes) "
@@ -31,7 +35,53 @@ def body(ops, stats):
     M.replay_ops(ops, {"C14"}, stats)
 
 
+# ---- small scope: every sequence of up to 4 calls over a fixed alphabet of 10 calls -----------
+def _c(name, kind, **params):
+    return {"name": name, "kind": kind, "params": params, "limits": None}
+
+
+ALPHABET = [
+    {"op": "add_source", "comp": _c("S1", "Source", vo=5.0), "group": "", "rail": ""},
+    {"op": "del_comp", "target": "Src0", "del_childs": True},
+    {"op": "add_comp", "parent": ["S1"], "comp": _c("M1", "PMux"), "group": "", "rail": ""},
+    {"op": "add_comp", "parent": ["S1"], "comp": _c("M2", "PMux", rs=0.1), "group": "",
+     "rail": ""},
+    {"op": "add_comp", "parent": "Src0", "comp": _c("R1", "RLoss", rs=0.1), "group": "",
+     "rail": "railR"},
+    {"op": "add_comp", "parent": "railR", "comp": _c("L1", "ILoad", ii=0.01), "group": "",
+     "rail": ""},
+    {"op": "change_comp", "target": "R1", "comp": _c("R1", "PMux"), "group": "", "rail": "S1"},
+    {"op": "change_comp", "target": "R1", "comp": _c("L1b", "PLoad", pwr=0.1), "group": "",
+     "rail": "railR"},
+    {"op": "del_comp", "target": "R1", "del_childs": False},
+    {"op": "change_comp", "target": "Src0", "comp": _c("S1", "Source", vo=3.3), "group": "",
+     "rail": "railR"},
+]
+
+
+def _small_scope_cases(maxlen):
+    import itertools
+
+    init = {"op": "init", "comp": _c("Src0", "Source", vo=12.0), "group": "", "rail": ""}
+    out = []
+    for n in range(1, maxlen + 1):
+        for seq in itertools.product(range(len(ALPHABET)), repeat=n):
+            out.append(list(seq))
+    return init, out
+
+
+def body_small(seq, stats):
+    init = {"op": "init", "comp": _c("Src0", "Source", vo=12.0), "group": "", "rail": "",
+            "warn_error": False}
+    ops = [init] + [dict(ALPHABET[i], cls=[]) for i in seq]
+    d = M.replay_ops(ops, {"C14"}, stats)
+    if d.steps_ok >= 2 and d.rejected >= 1:
+        stats.nontriv("".join(str(i) for i in seq))
+
+
 def streams(tier, avoid):
-    return [Stream("histories", body, machine=M.make_machine({"C14"}, tier),
+    _init, seqs = _small_scope_cases(4 if tier == "quick" else 5)
+    return [Stream("small_scope", body_small, cases=seqs),
+            Stream("histories", body, machine=M.make_machine({"C14"}, tier),
                    n={"quick": 250, "thorough": 2000}, steps={"quick": 25, "thorough": 40},
                    reduce=M.reduce_ops, shrink=(tier == "thorough"))]
